@@ -43,7 +43,8 @@ func tagSSIParser(doc *Parser, start *Token, arguments *Parser) (INodeTag, *Erro
 			// plaintext
 			// read it through the set's loaders, like every other template reference
 			var buf []byte
-			_, _, fd, err := doc.template.set.resolveTemplate(doc.template, fileToken.Val)
+			set := doc.template.set
+			_, _, fd, err := set.resolveTemplate(nil, set.resolveFilename(doc.template, fileToken.Val))
 			if err == nil {
 				buf, err = io.ReadAll(fd)
 			}
